@@ -1005,7 +1005,7 @@ namespace avel {
         auto ret = _mm256_getmant_pd(decay(v), _MM_MANT_NORM_p5_1, _MM_MANT_SIGN_src);
         // Note: Returns -1 or 1 for -infinity and +infinity respectively
 
-        ret = _mm256_maskz_mov_pd(is_non_zero, ret);
+        ret = _mm256_mask_mov_pd(decay(v), is_non_zero, ret);
         ret = _mm256_mask_blend_pd(is_infinity, ret, decay(v));
         return vec4x64f{ret};
 
@@ -1022,7 +1022,7 @@ namespace avel {
         auto ret = _mm256_getmant_pd(decay(v), _MM_MANT_NORM_p5_1, _MM_MANT_SIGN_src);
         // Note: Returns -1 or 1 for -infinity and +infinity respectively
 
-        ret = _mm256_maskz_mov_pd(is_non_zero, ret);
+        ret = _mm256_mask_mov_pd(decay(v), is_non_zero, ret);
         ret = _mm256_mask_blend_pd(is_infinity, ret, decay(v));
         return vec4x64f{ret};
 
